@@ -129,6 +129,10 @@ Definition get_basic_result (m : matching_result) : option net_rule :=
   if negb (isnil (mr_replace m)) then None
   else match mr_basic m with None => mr_document m | Some b => Some b end.
 
+(* MatchingResult.GetCosmeticOption (match.go:199-220): derived from BasicRule alone *)
+Definition result_cosmetic_option (m : matching_result) : N :=
+  get_cosmetic_option (option_map (fun b => (nr_whitelist b, nr_enabled b)) (mr_basic m)).
+
 (* GetDNSBasicRule (match.go:142-166): the loop with its early return *)
 Fixpoint dns_basic_loop (rules : list net_rule) (basic : option net_rule) : option net_rule :=
   match rules with
